@@ -5,9 +5,11 @@ From Coq Require Import Arith ZifyBool ZifyN ZifyNat.
 
 (* ------------------------------------------------------------------ wp *)
 (** panics the structural invariant does not exclude: the u64 overflow tag of the commit log
-    and, in the dev profile only, the two [debug_assert!]s *)
+    and, in the dev profile only, [debug_assert!(check_tracker_duplicates(..).is_none())]
+    (P_DBG_READY, the other debug assertion, is excluded: a tracker handed to try_ready(Init)
+    is always Paused(Busy)) *)
 Definition okp (cfg : config) (t : N) : Prop :=
-  t = P_ADD \/ (cf_debug_assertions cfg = true /\ (t = P_DBG_READY \/ t = P_DBG_DUP)).
+  t = P_ADD \/ (cf_debug_assertions cfg = true /\ t = P_DBG_DUP).
 
 Definition wp {A} (cfg : config) (x : R A) (Q : A -> Prop) : Prop :=
   match x with Ok a => Q a | Err _ => True | Panic t => okp cfg t end.
